@@ -79,7 +79,7 @@ def _patch(h):
     h.patch_numeric(PM)
 
 
-def h_load(h, P, N, fault, where):
+def h_load(h, P, N, fault, where, stored="Chebyshev", requested="Chebyshev"):
     _patch(h)
     parts = particles(P)
     grid = Grid(3, N, 1.0, 1.0)
@@ -88,12 +88,12 @@ def h_load(h, P, N, fault, where):
     k = 0
     for i, a in enumerate(parts):
         for j, b in enumerate(parts):
-            size, btype = N, "Chebyshev"
+            size, btype = N, stored
             faulty = (fault != "none" and k == where)
             if faulty and fault == "size":
                 size = N + 2
             if faulty and fault == "basis":
-                btype = "Cardinal"
+                btype = "Cardinal" if stored == "Chebyshev" else "Chebyshev"
             if faulty and fault == "small":
                 size = N - 2
             d = h.reals(f"c{i}{j}", (size - 1,) * 4, -1, 1, strict=False)
@@ -106,7 +106,7 @@ def h_load(h, P, N, fault, where):
     h.patch_always(CA, h5py=fake)
     # go through BoltzmannSolver.loadCollisions so that the "previous array stays" part is real
     bs = BZ.BoltzmannSolver.__new__(BZ.BoltzmannSolver)
-    bs.grid, bs.basisN, bs.offEqParticles = grid, "Chebyshev", parts
+    bs.grid, bs.basisN, bs.offEqParticles = grid, requested, parts
     sentinel = object()
     bs.collisionArray = sentinel
     expect_error = fault in ("missing", "size", "basis", "small") and not (
@@ -132,10 +132,19 @@ def h_load(h, P, N, fault, where):
     h.prove("no fault => no error", Cond(b=raised is None))
     arr = bs.collisionArray.polynomialData.coefficients
     h.prove("complete array installed", Cond(b=arr.shape == (P, N - 1, N - 1, P, N - 1, N - 1)))
+    h.prove("installed array is in the requested basis", Cond(b=bs.collisionArray.getBasisType() == requested))
+    if stored != requested:
+        # the numbers are the stored ones expressed in the requested basis: going back recovers them
+        bs.collisionArray.changeBasis(stored)
+        arr = bs.collisionArray.polynomialData.coefficients
     for (i, j), d in data.items():
         blk = arr[i, :, :, j, :, :]
         for idx in np.ndindex(*d.shape):
-            h.prove_eq(f"loaded block ({i},{j}) is the stored dataset", blk[idx], d[idx])
+            if stored != requested:
+                h.prove_close(f"loaded block ({i},{j}), taken back to the stored basis, is the stored dataset",
+                              blk[idx], d[idx], rtol=0, atol=TOL)
+            else:
+                h.prove_eq(f"loaded block ({i},{j}) is the stored dataset", blk[idx], d[idx])
 
 
 def _apply(C, f):
@@ -249,7 +258,11 @@ _LQ = [dict(P=1, N=3, fault="none", where=0), dict(P=2, N=3, fault="none", where
        dict(P=3, N=3, fault="none", where=0)] + \
     [dict(P=2, N=3, fault=f, where=w) for f in ("missing", "size", "basis") for w in (0, 1, 3)] + \
     [dict(P=1, N=5, fault="small", where=0), dict(P=1, N=3, fault="missing", where=0)]
-_LT = _LQ + [dict(P=2, N=3, fault=f, where=2) for f in ("missing", "size", "basis")] + \
+_LQ += [dict(P=2, N=3, fault="none", where=0, stored="Cardinal", requested="Chebyshev"),
+        dict(P=1, N=3, fault="none", where=0, stored="Chebyshev", requested="Cardinal"),
+        dict(P=2, N=3, fault="basis", where=1, stored="Cardinal", requested="Chebyshev")]
+_LT = _LQ + [dict(P=2, N=3, fault="none", where=0, stored="Cardinal", requested="Cardinal"),
+             dict(P=3, N=3, fault="none", where=0, stored="Chebyshev", requested="Cardinal")] + [dict(P=2, N=3, fault=f, where=2) for f in ("missing", "size", "basis")] + \
     [dict(P=2, N=5, fault="small", where=3)]
 _BQ = [dict(P=1, N=3, start="Chebyshev"), dict(P=2, N=3, start="Cardinal"), dict(P=1, N=5, start="Cardinal")]
 _BT = _BQ + [dict(P=2, N=5, start="Chebyshev"), dict(P=3, N=3, start="Chebyshev")]
